@@ -308,8 +308,9 @@ CANON = {"plus": "rplus", "op+": "rplus", "op+=": "rplus", "minus": "rminus", "o
          "f_log": "log", "f_exp": "exp", "f_act": "act"}
 
 
-def compare(impl, model, cell=None):
+def compare(impl, model, cell=None, tol_rel=None):
     """-> (equal?, description)"""
+    tol_rel = TOL_REL if tol_rel is None else tol_rel
     if impl == model:
         return True, ""
     if cell is not None:
@@ -323,7 +324,7 @@ def compare(impl, model, cell=None):
             b = [gen.of_hex(x) for x in tm[1:]]
             fin_a = [x for x in a if x == x and abs(x) != float("inf")]
             scale = max([1.0] + [abs(x) for x in fin_a])
-            ok = all((x == y) or (x != x and y != y) or abs(x - y) <= TOL_REL * scale for x, y in zip(a, b))
+            ok = all((x == y) or (x != x and y != y) or abs(x - y) <= tol_rel * scale for x, y in zip(a, b))
             if ok:
                 return True, "tol"
     ti, tm = impl.split(), model.split()
@@ -339,12 +340,12 @@ def compare(impl, model, cell=None):
         i - 1, ti[i], gen.of_hex(ti[i]), tm[i], gen.of_hex(tm[i]), len(bad), len(ti) - 1)
 
 
-def run(reqs, harness_exe, jobs=8):
+def run(reqs, harness_exe, jobs=8, driver=None):
     lines = [l for l, _ in reqs]
     if not lines:
         return [], []
     rc1, impl, err1 = vlib.run_lines_parallel(harness_exe, lines, jobs)
-    rc2, model, err2 = vlib.run_lines_parallel(vlib.DRIVER, lines, jobs)
+    rc2, model, err2 = vlib.run_lines_parallel(driver or vlib.DRIVER, lines, jobs)
     if len(impl) != len(lines) or len(model) != len(lines):
         raise RuntimeError("protocol desync: %d requests, %d impl, %d model responses (rc %d/%d)\n%s\n%s"
                            % (len(lines), len(impl), len(model), rc1, rc2, err1[-2000:], err2[-2000:]))
